@@ -34,6 +34,7 @@ func main() {
 		control = flag.String("control", "", "run one control (overlay) and print its result as JSON")
 		sub     = flag.Bool("sub", false, "sub-run: print obligations as JSON, write no evidence")
 		list    = flag.Bool("list", false, "list registered properties")
+		mm      = flag.String("metamorph", "", "run on an overlay in which all keto sources are rewritten by a behaviour-preserving transformation (commute|ifelse|rename|parens); prints the obligations that are not discharged")
 	)
 	flag.Parse()
 	if *list {
@@ -67,6 +68,10 @@ func main() {
 
 	if *control != "" {
 		runControl(pr, *control, lc, *repo)
+		return
+	}
+	if *mm != "" {
+		runMetamorph(pr, *mm, lc, *repo)
 		return
 	}
 
@@ -174,6 +179,33 @@ func runControl(pr *rules.Property, name string, lc core.LoadConfig, repo string
 	}
 	fmt.Fprintf(os.Stderr, "ketosa: unknown control %q\n", name)
 	os.Exit(2)
+}
+
+// runMetamorph rewrites all keto sources by one behaviour-preserving
+// transformation (overlay only) and prints {"applied":n,"fired":[...]}.
+func runMetamorph(pr *rules.Property, kind string, lc core.LoadConfig, repo string) {
+	ov, n, err := core.Metamorph(repo, lc.Tags, kind)
+	res := map[string]any{"name": "metamorph-" + kind, "applied": n > 0, "rewrites": n, "files": len(ov)}
+	if err != nil {
+		res["error"] = err.Error()
+	} else {
+		lc.Overlay = ov
+		rep, err := analyse(pr, lc, "quick", false)
+		if err != nil {
+			res["error"] = err.Error()
+		} else {
+			var fired []string
+			for _, o := range rep.Obls {
+				if o.Status != core.Discharged {
+					fired = append(fired, string(o.Status)+": "+o.Key()+" @ "+o.Pos+" :: "+o.Detail)
+				}
+			}
+			res["fired"] = fired
+			res["obligations"] = len(rep.Obls)
+		}
+	}
+	b, _ := json.Marshal(res)
+	fmt.Println(string(b))
 }
 
 type subCfg struct {
@@ -330,6 +362,50 @@ func thorough(pr *rules.Property, base *core.Report, repo string, extra map[stri
 			}
 			mu.Unlock()
 		}(c)
+	}
+	// metamorphic negative controls: the whole tree rewritten by a behaviour-preserving transformation
+	for _, kind := range []string{"commute", "ifelse", "rename", "parens", "swtoif", "derange", "elseafter"} {
+		wg.Add(1)
+		go func(kind string) {
+			defer wg.Done()
+			sem2 <- struct{}{}
+			defer func() { <-sem2 }()
+			cmd := exec.Command(self, "-property", pr.ID, "-repo", repo, "-metamorph", kind)
+			outb, err := cmd.Output()
+			r := ctlRes{Name: "metamorph-" + kind, Positive: false}
+			var parsed struct {
+				Applied bool     `json:"applied"`
+				Fired   []string `json:"fired"`
+				Error   string   `json:"error"`
+			}
+			if err != nil {
+				r.Error = err.Error()
+			} else if e := json.Unmarshal(lastLine(outb), &parsed); e != nil {
+				r.Error = e.Error()
+			} else {
+				r.Applied, r.Fired, r.Error = parsed.Applied, parsed.Fired, parsed.Error
+			}
+			var newFired []string
+			for _, f := range r.Fired {
+				key := f[strings.Index(f, ": ")+2:]
+				if i := strings.Index(key, " @ "); i >= 0 {
+					key = key[:i]
+				}
+				if st, ok := baseKeys[key]; ok && st != core.Discharged {
+					continue
+				}
+				newFired = append(newFired, f)
+			}
+			r.Fired = newFired
+			// a transformation that does not type-check on this tree is skipped, not failed
+			r.OK = (r.Error == "" && len(newFired) == 0) || strings.Contains(r.Error, "load/type errors")
+			mu.Lock()
+			ctl = append(ctl, r)
+			if !r.OK {
+				failures = append(failures, r.Name)
+			}
+			mu.Unlock()
+		}(kind)
 	}
 	wg.Wait()
 	sort.Slice(ctl, func(i, j int) bool { return ctl[i].Name < ctl[j].Name })
